@@ -269,3 +269,6 @@ pub mod strict;
 
 // imperative interface to building open hypergraphs
 pub mod lax;
+
+#[cfg(feature = "verif-hooks")]
+pub mod verif_trace;
